@@ -613,3 +613,57 @@ def c14(tier):
                 "non-trivial = distinct read-back framework with >= 2 attacks, or distinct (writer, extension)")
     res.exhaustive = False
     return res.finish()
+
+
+# ----------------------------------------------------------------------------------------------------------------
+# C10 encodings
+# ----------------------------------------------------------------------------------------------------------------
+@check("C10")
+def c10(tier):
+    res = Result("C10", tier)
+    vlib.build_harness()
+    thorough = tier == "thorough"
+    cfg = os.path.join(res.wd, "MCEnc_run.cfg")
+    open(cfg, "w").write(open(os.path.join(vlib.SPEC, "MCEnc.cfg")).read())
+    res.add_mc(vlib.mc("MCEnc.tla", cfg=cfg, wd=res.wd, name="MCEnc_N3_threshold2", timeout=3000))
+    sets = af_sets(res, tier)
+    rng = random.Random(seed())
+    shaped = [a for a in sets["shaped"] if a["n"] <= (12 if thorough else 9)]
+    funnels = [a for a in shaped if "funnel" in a["tag"]]
+    plans = [("ref3", sets["ref3"]), ("iso4", sets["iso4"] if thorough else sets["iso4"][:250]),
+             ("shaped", shaped + funnels[::-1] + rng.sample(shaped, len(shaped))),     # several orders: encoder objects are reused along the list
+             ("rand", [a for a in sets["rand"] if a["n"] <= (8 if thorough else 7)][:(600 if thorough else 120)])]
+    nt = set()
+    for name, afs in plans:
+        afile = os.path.join(res.wd, name + ".afs.jsonl")
+        out = os.path.join(res.wd, name + ".ndjson")
+        afgen.write(afile, afs)
+        t = time.time()
+        vlib.vh(["enc", "--afs", afile, "--out", out, "--threads", vlib.NCPU, "--clauses_upto", 9])
+        segs = vlib.segments(out, openers=("af",))
+        log("  RUN enc %-8s %5d frameworks -> %6d clause sets %.1fs" % (name, len(afs), sum(len(s) - 1 for s in segs), time.time() - t))
+        t1, st = vlib.judge("TraceEnc.tla", segs, res.wd, name, shards=8)
+        drift = [t for t in t1 if t["pred"].startswith("T2:")]
+        if any(t["pred"] == "T2:enumerator_agrees_with_brute_force" for t in drift):
+            raise vlib.ToolError("model enumerator of the harness disagrees with TLC's brute force: tool defect, no verdict")
+        res.drift += len(drift)
+        for t in drift[:3]:
+            log("  NOTE drift %s (%s, range=%s): clause set differs from Enc.tla's transcription; not a verdict" % (t["pred"], t["event"]["encoder"], t["event"]["range"]))
+        res.add_judge(name, [t for t in t1 if not t["pred"].startswith("T2:")], st, only_props={"C10"})
+        for seg in segs:
+            for e in seg[1:]:
+                if e["nclauses"] >= 4 and len(e["models"]) >= 2:
+                    nt.add((json.dumps(seg[0]["att"]), seg[0]["n"], e["encoder"], e["range"]))
+        if len(res.samples) < 3:
+            s = segs[len(segs) // 2]
+            e = dict(s[3])
+            e["clauses"] = e["clauses"][:12]
+            res.samples.append({"framework": s[0], "event": e})
+    res.nontrivial = len(nt)
+    res.rule = ("per framework (compact ids) x {aux_var cf/adm/co, exp cf/co, hybrid, default stable} x {plain, range}: the real clause set captured "
+                "through SatSolver::add_clause, all its models enumerated and projected on arg_to_lit / first_range_var; encoder objects are reused along "
+                "the list of frameworks; non-trivial = clause set with >= 4 clauses and >= 2 model projections")
+    res.exhaustive = False
+    res.extra["exhaustive_part"] = "all frameworks <= 3 arguments x 13 encoder variants (real code); Enc.tla transcription model-checked with threshold 2"
+    res.assumptions = ["the harness' CaDiCaL-based all-models enumerator (validated against TLC's brute force on every clause set with <= 9 variables)"]
+    return res.finish()
